@@ -30,7 +30,7 @@ RULE = ("(script) every legal command sequence up to length L over {assert x3, a
 
 # ---------------------------------------------------------------- script side
 
-SCRIPT_LETTERS = ["A", "B", "C3", "S0", "Sg", "Sg2", "Sh", "P0", "P1", "P2", "Q0", "Q1", "Q2", "R", "K", "Mi", "Ma", "MM", "Mb"]
+SCRIPT_LETTERS = ["A", "B", "C3", "S0", "Sg", "Sg2", "Sz", "Sh", "P0", "P1", "P2", "Q0", "Q1", "Q2", "R", "K", "Mi", "Ma", "MM", "Mb"]
 # ("RR" = (reset) is understood by the machinery below but not generated: the property quantifies over assert / push /
 #  pop / reset-assertions / check commands)
 
@@ -65,6 +65,10 @@ class ScriptWorld(object):
         if letter == "Sg2":
             return (SmtLibCommand(smtcmd.ASSERT_SOFT, [self.e, [(":id", "g"), (":weight", m.Real(3))]]),
                     ("soft", "g", self.e, 3))
+        if letter == "Sz":
+            # a soft clause that costs nothing is a soft clause of its group all the same
+            return (SmtLibCommand(smtcmd.ASSERT_SOFT, [self.b, [(":id", "g"), (":weight", m.Int(0))]]),
+                    ("soft", "g", self.b, 0))
         if letter == "Sh":
             return SmtLibCommand(smtcmd.ASSERT_SOFT, [self.e, [(":id", "h")]]), ("soft", "h", self.e, 1)
         if letter[0] == "P":
@@ -100,7 +104,7 @@ DECLS_TEXT = ("(declare-fun a () Bool)(declare-fun b () Bool)(declare-const c Bo
 TEXT = {
     "A": ["(assert a)"], "B": ["(assert (or (not a) b))"], "C3": ["(assert (< x y))"],
     "S0": ["(assert-soft c)"], "Sg": ["(assert-soft d :weight 2 :id g)", "(assert-soft d :id g :weight 2)"],
-    "Sg2": ["(assert-soft e :id g :weight 3)"], "Sh": ["(assert-soft e :id h)"],
+    "Sg2": ["(assert-soft e :id g :weight 3)"], "Sh": ["(assert-soft e :id h)"], "Sz": ["(assert-soft b :id g :weight 0)"],
     "P0": ["(push 0)"], "P1": ["(push 1)", "(push)"], "P2": ["(push 2)"],
     "Q0": ["(pop 0)"], "Q1": ["(pop 1)", "(pop)"], "Q2": ["(pop 2)"],
     "R": ["(reset-assertions)"], "K": ["(check-sat)"], "RR": ["(reset)" + DECLS_TEXT],
